@@ -68,7 +68,10 @@ func runOps(s *scn.Scenario, pl *scn.Pipeline, rec *pipeRec) {
 	rec.ops = make([]opResult, len(pl.Ops))
 	if rec.parse.root != nil {
 		for i := range pl.Ops {
-			rec.ops[i] = doOp(pl.Ops[i].Kind, rec.parse.root, len(in.Src), pl.Ops[i].Fault)
+			rec.ops[i] = doOp(pl.Ops[i].Kind, target(rec.parse.root, pl.Ops[i].Sub), len(in.Src), pl.Ops[i].Fault)
+			if pl.Ops[i].Sub != 0 {
+				zzsim.AddProbe(probeC11OpOnPart, 1)
+			}
 			if rec.ops[i].faulted {
 				zzsim.AddProbe(probeC11OpFault, 1)
 			}
